@@ -11,7 +11,7 @@ FEAT = 'derive,bit-vec,bytes,generic-array,max-encoded-len'
 
 def sh(cmd, cwd=WT, timeout=3600):
     env = dict(os.environ, CARGO_BUILD_JOBS='6', CARGO_NET_OFFLINE='true')
-    r = subprocess.run(cmd, cwd=cwd, shell=True, stdout=subprocess.PIPE, stderr=subprocess.STDOUT, text=True, timeout=timeout, env=env)
+    r = subprocess.run(['/bin/bash', '-o', 'pipefail', '-c', cmd], cwd=cwd, stdout=subprocess.PIPE, stderr=subprocess.STDOUT, text=True, timeout=timeout, env=env)
     return r.returncode, r.stdout
 
 
@@ -45,9 +45,9 @@ def main():
                 shutil.copy(demo_rs, os.path.join(WT, 'tests', 'demo%d.rs' % k))
                 rel = ' --release' if 'release' in open(os.path.join(d, 'meta%d.json' % k)).read() else ''
                 cmd = 'cargo test --offline --features %s --test demo%d%s 2>&1 | tail -15' % (FEAT, k, rel)
-                with_rc, o1 = sh(cmd + '; exit ${PIPESTATUS[0]}')
+                with_rc, o1 = sh(cmd)
                 sh('git apply -R %s' % patch)
-                without_rc, o2 = sh(cmd + '; exit ${PIPESTATUS[0]}')
+                without_rc, o2 = sh(cmd)
                 os.remove(os.path.join(WT, 'tests', 'demo%d.rs' % k))
             elif os.path.isdir(demo_dir):
                 # standalone project demos (C17 / C20): run.sh exits 0 iff behaviour is correct; they point at the agent's
@@ -56,9 +56,9 @@ def main():
                 shutil.rmtree(tmpd, ignore_errors=True)
                 shutil.copytree(demo_dir, tmpd)
                 sh("grep -rl '/tmp/mut/%s' . | xargs -r sed -i 's#/tmp/mut/%s#%s#g'" % (pid, pid, WT), cwd=tmpd)
-                with_rc, o1 = sh('bash run.sh 2>&1 | tail -15; exit ${PIPESTATUS[0]}', cwd=tmpd)
+                with_rc, o1 = sh('bash run.sh 2>&1 | tail -15', cwd=tmpd)
                 sh('git apply -R %s' % patch)
-                without_rc, o2 = sh('bash run.sh 2>&1 | tail -15; exit ${PIPESTATUS[0]}', cwd=tmpd)
+                without_rc, o2 = sh('bash run.sh 2>&1 | tail -15', cwd=tmpd)
                 shutil.rmtree(tmpd, ignore_errors=True)
             res[key] = {'suite': suite, 'suite_ok': suite_ok, 'demo_with_patch_rc': with_rc, 'demo_without_patch_rc': without_rc,
                         'confirmed': bool(suite_ok and with_rc not in (0, None) and without_rc == 0)}
